@@ -61,6 +61,8 @@ class Pool:
         self.by_id: dict[int, str] = {}
         self.counter = 0
         self.whitelists: dict[str, dict] = {}
+        # while True the driver itself reads nothing back from the objects it creates (unobserved bursts)
+        self.blind = False
 
     def add(self, name, obj):
         self.objs[name] = obj
@@ -185,12 +187,17 @@ def _mku(pool, op):
         return Universe(**kw)
 
     res = _wrap(pool, t, register=name)
-    if res[0] == "ok":
-        u = pool.get(name)
-        l = u.laws
+    if res[0] == "ok" and not pool.blind:
+        sync_auto_laws(pool)
+    return res
+
+
+def sync_auto_laws(pool):
+    """Give the law set a universe created for itself a pool name (this READS universe.laws)."""
+    for name in [n for n, o in pool.objs.items() if isinstance(o, Universe)]:
+        l = pool.objs[name].laws
         if l is not None and pool.name(l).startswith("?"):
             pool.add("W_" + name, l)
-    return res
 
 
 def _mke(pool, op):
@@ -386,7 +393,7 @@ def _nb(pool, op):
     if not pool.has(v):
         return SKIP
     vv = pool.get(v)
-    return _wrap(pool, lambda: helpers.neighbors(vv, DIRS[d], UNKS[u], zoo.NB_FILTERS[f]))
+    return _wrap(pool, lambda: helpers.neighbors(vv, DIRS[d], UNKS[u], zoo.nb_filter(f)))
 
 
 def _fl(pool, op):
@@ -404,7 +411,7 @@ def _trav(pool, op):
     uu = None if u is None else pool.get(u)
     ss = pool.get(s)
     return _wrap(pool, lambda: TRAVERSALS[fn](uu, ss, direction_sensitive=DIRS[d], unknown_handling=UNKS[unk],
-                                              ff_via=zoo.NB_FILTERS[via], ff_result=zoo.RES_FILTERS[res]))
+                                              ff_via=zoo.nb_filter(via), ff_result=zoo.RES_FILTERS[res]))
 
 
 def _search(pool, op):
